@@ -48,3 +48,4 @@ Theorem C10_agc_premises_are_met_by_the_default_and_the_recommended_limits :
   sample_okb (of_bits 1233125376) = true /\ sample_okb (of_bits 3380609024) = true.
 Proof. exact agc_premises_hold. Qed.
 Redirect "Properties/C10_float.C10_agc_premises_are_met_by_the_default_and_the_recommended_limits" Print Assumptions C10_agc_premises_are_met_by_the_default_and_the_recommended_limits.
+
